@@ -1125,3 +1125,33 @@ func (it *Interp) Assignable(v any, declared string) bool {
 	}
 	return false
 }
+
+// SurelyInconvertible: the value can certainly not be converted to the declared getter type (so the getter must
+// report an error). Anything not listed is left unjudged.
+func (it *Interp) SurelyInconvertible(v any, declared string) bool {
+	t := it.Im.ParseType(declared)
+	if !it.known(t.Pkg) {
+		return false
+	}
+	switch t.Sym {
+	case "Obj":
+		switch o := v.(type) {
+		case *ObjM:
+			return !t.Ptr || o.TPkg != t.Pkg
+		case ObjM:
+			return t.Ptr || o.TPkg != t.Pkg
+		case *WrapM:
+			return true
+		case NilObjM:
+			return !t.Ptr
+		case nil:
+			return !t.Ptr
+		}
+	case "Iface":
+		switch v.(type) {
+		case ObjM, OtherM:
+			return !t.Ptr
+		}
+	}
+	return false
+}
